@@ -4,6 +4,8 @@ import (
 	"fmt"
 	"os"
 	"sort"
+	"strconv"
+	"sync"
 	"sync/atomic"
 	"time"
 )
@@ -262,11 +264,32 @@ func makeSample(r *RunResult, profile string, maxActs int) Sample {
 var wdStop = make(chan struct{}, 1)
 
 // RunWallLimit is the per-run wall clock limit.
-var RunWallLimit = 240 * time.Second
+var RunWallLimit = func() time.Duration {
+	if v, err := strconv.Atoi(os.Getenv("VERIF_RUN_WALL_S")); err == nil && v > 0 {
+		return time.Duration(v) * time.Second
+	}
+	return 240 * time.Second
+}()
 
 // abortRun asks the executor to give the current run up (checked once per
 // action; reading it does not influence the simulation).
 var abortRun atomic.Bool
+
+// abortCh is closed together with abortRun being set; goroutine hand-offs of
+// the node driver (E3) that would otherwise wait for ever select on it.
+var (
+	abortMu sync.Mutex
+	abortCh = make(chan struct{})
+)
+
+func currentAbort() <-chan struct{} {
+	abortMu.Lock()
+	defer abortMu.Unlock()
+	return abortCh
+}
+
+// runAbandoned is the panic value with which a blocked hand-off gives up.
+type runAbandoned struct{}
 
 func watchdogArm(profile string, i int) {
 	select {
@@ -274,6 +297,10 @@ func watchdogArm(profile string, i int) {
 	default:
 	}
 	abortRun.Store(false)
+	abortMu.Lock()
+	abortCh = make(chan struct{})
+	ch := abortCh
+	abortMu.Unlock()
 	go func() {
 		select {
 		case <-wdStop:
@@ -283,6 +310,7 @@ func watchdogArm(profile string, i int) {
 			// (the run is counted as abandoned, nothing is concluded from it)
 			fmt.Fprintf(os.Stderr, "watchdog: run %d of profile %s exceeded %v, abandoning it\n", i, profile, RunWallLimit)
 			abortRun.Store(true)
+			close(ch)
 		}
 		select {
 		case <-wdStop:
